@@ -86,9 +86,18 @@ func (a *AVP) decodeFromBytes(data []byte, application uint32, dictionary *dict.
 		hdrLength = 8
 	}
 	// Find this code in the dictionary.
-	dictAVP, err := dictionary.FindAVPWithVendor(application, a.Code, a.VendorID)
-	if err != nil && dictAVP == nil {
-		return err
+	var dictAVP *dict.AVP
+	var err error
+	if a.VendorID == dict.UndefinedVendorID {
+		// On the wire 0xffffffff is a vendor id like any other, one that
+		// no dictionary defines AVPs for. It must not reach the lookup,
+		// where the same value is the wildcard that matches every vendor.
+		dictAVP = dict.MakeUnknownAVP(application, a.Code, a.VendorID)
+	} else {
+		dictAVP, err = dictionary.FindAVPWithVendor(application, a.Code, a.VendorID)
+		if err != nil && dictAVP == nil {
+			return err
+		}
 	}
 	bodyLen := a.Length - hdrLength
 	if n := len(payload); n < bodyLen {
